@@ -47,11 +47,17 @@ def plain(nt, k):
     return {**{f'e{i}': False for i in range(nt)}, **{f'd{i}': 2 for i in range(k - 1)}}
 
 
+def started(nt, k):
+    """the 'all started' sub-family of plain(): steps 0..nt-1 start the nt tasks one after the other (each start drained), the
+    remaining k-nt actions are free (leave i / cancel i); weights stay symbolic"""
+    return {**plain(nt, k), **{f'a{i}': 0 for i in range(1, nt)}}
+
+
 def groups_for(nt, cap, k, shard_on, modes=(0, 1, 2), const=None, tag=''):
     out = []
     for mode in modes:
-        if mode == 2 and k < 4:
-            continue
+        if mode == 2 and (k < 4 or (const and 'a1' in const and k - nt < 2)):
+            continue   # mode 2 needs two cancels, i.e. two free actions
         name = f'C40_n{nt}k{k}m{mode}{tag}'
         out.append((mode, sched.gen_shards(name, HM, params(nt, cap, k), shard_on,
                                            entry=(f'check_{nt}_{cap}_{k}', f'reach_{nt}_{cap}_{k}'), const={'mode': mode, **(const or {})},
@@ -70,7 +76,8 @@ def run(R):
     if R.tier == 'quick':
         pct = 240
         groups = (groups_for(2, 2, 4, {'a1': [0, 1, 2], 'd0': D})
-                  + groups_for(3, 3, 4, {'a1': [0, 1, 2], 'w0': [1, 2, 3]}, const=plain(3, 4), tag='p'))
+                  + groups_for(3, 3, 4, {'a1': [0, 1, 2], 'w0': [1, 2, 3]}, const=plain(3, 4), tag='p')
+                  + groups_for(4, 3, 5, {'w0': [1, 2, 3]}, const=started(4, 5), tag='s'))
         R.bounds = {'tasks': '2 tasks capacity 2 k=4 (everything symbolic); 3 tasks capacity 3 k=4 with normal exits and full drains (weights, actions symbolic)', 'capacity': 2, 'weights': '1..capacity symbolic', 'steps': 'k=4',
                     'drain': '0 / one loop iteration / until quiescent, symbolic per step (last step drains)'}
     else:
